@@ -20,6 +20,9 @@ pub struct CloudSpec {
     pub cap: Option<usize>,
     /// drop the point cloud writer without calling finalize
     pub abandon: bool,
+    /// value vectors the writer must refuse: (index of the accepted point in front of which the
+    /// call is made, values). An accepted call is recorded as an error of the program.
+    pub rejects: Vec<(usize, Vec<m::Val>)>,
 }
 
 #[derive(Clone, Debug)]
@@ -307,9 +310,18 @@ fn run_inner(dev: Dev, p: &Program, o: &ExecOpts, res: &mut RunResult, cur: &mut
                 }
                 res.caps.push(pw.verif_max_points_per_packet());
                 res.api_calls += 18;
-                for pt in &c.points {
-                    let vals: RawValues = pt.iter().map(val_to_e57).collect();
-                    tr!(i, "add_point", pw.add_point(vals));
+                for (k, pt) in c.points.iter().enumerate().chain(std::iter::once((c.points.len(), &Vec::new()))) {
+                    for (_, bad) in c.rejects.iter().filter(|(at, _)| *at == k) {
+                        res.api_calls += 1;
+                        if pw.add_point(bad.iter().map(val_to_e57).collect()).is_ok() {
+                            res.err = Some((i, "add_point".into(), "a value vector that cannot be stored was accepted".into()));
+                            return;
+                        }
+                    }
+                    if k < c.points.len() {
+                        let vals: RawValues = pt.iter().map(val_to_e57).collect();
+                        tr!(i, "add_point", pw.add_point(vals));
+                    }
                 }
                 if !c.abandon {
                     tr!(i, "PointCloudWriter::finalize", pw.finalize());
